@@ -54,13 +54,19 @@ Fixpoint dedup (l : list N) : list N :=
   match l with [] => [] | x :: l' => if memN x l' then dedup l' else x :: dedup l' end.
 
 (* ---- per-job clauses of C13 *)
+(* the four clauses that need nothing but the log (proved never to fire on a model history:
+   Factory/OracleSound.v) *)
+Definition job_core (flat : list event) (j : N) : list anomaly :=
+  let n f := count_ev (f j) flat in
+  (if Nat.ltb 1 (n is_start) then [ATwoStarts j] else [])
+  ++ (if Nat.ltb 1 (n is_end + n is_disc + n is_drop + n is_senderr)%nat then [ATwoFates j] else [])
+  ++ (if Nat.ltb 0 (n is_end) && Nat.eqb 0 (n is_start) then [AEndNoStart j] else [])
+  ++ (if Nat.ltb 0 (n is_ret) && Nat.eqb 0 (n is_disc) then [ARetNoDisc j] else []).
+
 Definition job_anomalies (os : list op) (flat : list event) (j : N) : list anomaly :=
   let n f := count_ev (f j) flat in
   (match key_of os j with None => [AUnknownJob j] | Some _ => [] end)
-  ++ (if Nat.ltb 1 (n is_start) then [ATwoStarts j] else [])
-  ++ (if Nat.ltb 1 (n is_end + n is_disc + n is_drop + n is_senderr)%nat then [ATwoFates j] else [])
-  ++ (if Nat.ltb 0 (n is_end) && Nat.eqb 0 (n is_start) then [AEndNoStart j] else [])
-  ++ (if Nat.ltb 0 (n is_ret) && Nat.eqb 0 (n is_disc) then [ARetNoDisc j] else [])
+  ++ job_core flat j
   ++ (if Nat.ltb 0 (n is_ret) && Nat.ltb 0 (n is_acc) then [AAccAndRet j] else []).
 
 (* ---- the scan: jobs in progress, op by op *)
